@@ -241,4 +241,121 @@ def Text_SessionData_GetAuthenticated : Prop := text_SessionData_GetAuthenticate
 def expectedText_SessionData_SetAuthenticated : List String := ["if value { id, err := generateSecureRandomString(32) if err != nil { return fmt.Errorf(\"failed to generate secure session id: %w\", err) } sd.mainSession.ID = id sd.mainSession.Values[\"created_at\"] = time.Now().Unix() }", "sd.mainSession.Values[\"authenticated\"] = value", "return nil"]
 def Text_SessionData_SetAuthenticated : Prop := text_SessionData_SetAuthenticated = expectedText_SessionData_SetAuthenticated
 
+def expectedText_SessionData_GetCSRF : List String := ["csrf, _ := sd.mainSession.Values[\"csrf\"].(string)", "return csrf"]
+def Text_SessionData_GetCSRF : Prop := text_SessionData_GetCSRF = expectedText_SessionData_GetCSRF
+
+def expectedText_SessionData_SetCSRF : List String := ["sd.mainSession.Values[\"csrf\"] = token"]
+def Text_SessionData_SetCSRF : Prop := text_SessionData_SetCSRF = expectedText_SessionData_SetCSRF
+
+def expectedText_SessionData_GetNonce : List String := ["nonce, _ := sd.mainSession.Values[\"nonce\"].(string)", "return nonce"]
+def Text_SessionData_GetNonce : Prop := text_SessionData_GetNonce = expectedText_SessionData_GetNonce
+
+def expectedText_SessionData_SetNonce : List String := ["sd.mainSession.Values[\"nonce\"] = nonce"]
+def Text_SessionData_SetNonce : Prop := text_SessionData_SetNonce = expectedText_SessionData_SetNonce
+
+def expectedText_SessionData_GetCodeVerifier : List String := ["codeVerifier, _ := sd.mainSession.Values[\"code_verifier\"].(string)", "return codeVerifier"]
+def Text_SessionData_GetCodeVerifier : Prop := text_SessionData_GetCodeVerifier = expectedText_SessionData_GetCodeVerifier
+
+def expectedText_SessionData_SetCodeVerifier : List String := ["sd.mainSession.Values[\"code_verifier\"] = codeVerifier"]
+def Text_SessionData_SetCodeVerifier : Prop := text_SessionData_SetCodeVerifier = expectedText_SessionData_SetCodeVerifier
+
+def expectedText_SessionData_GetEmail : List String := ["email, _ := sd.mainSession.Values[\"email\"].(string)", "return email"]
+def Text_SessionData_GetEmail : Prop := text_SessionData_GetEmail = expectedText_SessionData_GetEmail
+
+def expectedText_SessionData_SetEmail : List String := ["sd.mainSession.Values[\"email\"] = email"]
+def Text_SessionData_SetEmail : Prop := text_SessionData_SetEmail = expectedText_SessionData_SetEmail
+
+def expectedText_SessionData_GetIncomingPath : List String := ["path, _ := sd.mainSession.Values[\"incoming_path\"].(string)", "return path"]
+def Text_SessionData_GetIncomingPath : Prop := text_SessionData_GetIncomingPath = expectedText_SessionData_GetIncomingPath
+
+def expectedText_SessionData_SetIncomingPath : List String := ["sd.mainSession.Values[\"incoming_path\"] = path"]
+def Text_SessionData_SetIncomingPath : Prop := text_SessionData_SetIncomingPath = expectedText_SessionData_SetIncomingPath
+
+def expectedText_NewCache : List String := ["c := &Cache{ items: make(map[string]CacheItem, DefaultMaxSize), order: list.New(), elems: make(map[string]*list.Element, DefaultMaxSize), maxSize: DefaultMaxSize, autoCleanupInterval: 5 * time.Minute, stopCleanup: make(chan struct{}), }", "go c.startAutoCleanup()", "return c"]
+def Text_NewCache : Prop := text_NewCache = expectedText_NewCache
+
+def expectedText_Cache_Close : List String := ["close(c.stopCleanup)"]
+def Text_Cache_Close : Prop := text_Cache_Close = expectedText_Cache_Close
+
+def expectedText_Cache_startAutoCleanup : List String := ["autoCleanupRoutine(c.autoCleanupInterval, c.stopCleanup, c.Cleanup)"]
+def Text_Cache_startAutoCleanup : Prop := text_Cache_startAutoCleanup = expectedText_Cache_startAutoCleanup
+
+def expectedText_autoCleanupRoutine : List String := ["ticker := time.NewTicker(interval)", "defer ticker.Stop()", "for { select { case <-ticker.C: cleanup() case <-stop: return } }"]
+def Text_autoCleanupRoutine : Prop := text_autoCleanupRoutine = expectedText_autoCleanupRoutine
+
+def expectedText_NewTokenCache : List String := ["return &TokenCache{ cache: NewCache(), }"]
+def Text_NewTokenCache : Prop := text_NewTokenCache = expectedText_NewTokenCache
+
+def expectedText_NewMetadataCache : List String := ["c := &MetadataCache{ autoCleanupInterval: 5 * time.Minute, stopCleanup: make(chan struct{}), }", "go c.startAutoCleanup()", "return c"]
+def Text_NewMetadataCache : Prop := text_NewMetadataCache = expectedText_NewMetadataCache
+
+def expectedText_MetadataCache_Close : List String := ["close(c.stopCleanup)"]
+def Text_MetadataCache_Close : Prop := text_MetadataCache_Close = expectedText_MetadataCache_Close
+
+def expectedText_MetadataCache_startAutoCleanup : List String := ["autoCleanupRoutine(c.autoCleanupInterval, c.stopCleanup, c.Cleanup)"]
+def Text_MetadataCache_startAutoCleanup : Prop := text_MetadataCache_startAutoCleanup = expectedText_MetadataCache_startAutoCleanup
+
+def expectedText_TraefikOidc_startTokenCleanup : List String := ["ticker := time.NewTicker(1 * time.Minute)", "go func() { defer ticker.Stop() for range ticker.C { t.tokenCache.Cleanup() t.jwkCache.Cleanup() } }()"]
+def Text_TraefikOidc_startTokenCleanup : Prop := text_TraefikOidc_startTokenCleanup = expectedText_TraefikOidc_startTokenCleanup
+
+def expectedText_cleanupReplayCache : List String := ["now := time.Now()", "for token, expiry := range replayCache { if expiry.Before(now) { delete(replayCache, token) } }"]
+def Text_cleanupReplayCache : Prop := text_cleanupReplayCache = expectedText_cleanupReplayCache
+
+def expectedText_Config_Validate : List String := ["if c.ProviderURL == \"\" { return fmt.Errorf(\"providerURL is required\") }", "if !isValidSecureURL(c.ProviderURL) { return fmt.Errorf(\"providerURL must be a valid HTTPS URL\") }", "if c.CallbackURL == \"\" { return fmt.Errorf(\"callbackURL is required\") }", "if !strings.HasPrefix(c.CallbackURL, \"/\") { return fmt.Errorf(\"callbackURL must start with /\") }", "if c.ClientID == \"\" { return fmt.Errorf(\"clientID is required\") }", "if c.ClientSecret == \"\" { return fmt.Errorf(\"clientSecret is required\") }", "if c.SessionEncryptionKey == \"\" { return fmt.Errorf(\"sessionEncryptionKey is required\") }", "if len(c.SessionEncryptionKey) < MinSessionEncryptionKeyLength { return fmt.Errorf(\"sessionEncryptionKey must be at least %d characters long\", MinSessionEncryptionKeyLength) }", "if c.LogLevel != \"\" && !isValidLogLevel(c.LogLevel) { return fmt.Errorf(\"logLevel must be one of: debug, info, error\") }", "for _, url := range c.ExcludedURLs { if !strings.HasPrefix(url, \"/\") { return fmt.Errorf(\"excluded URL must start with /: %s\", url) } if strings.Contains(url, \"..\") { return fmt.Errorf(\"excluded URL must not contain path traversal: %s\", url) } if strings.Contains(url, \"*\") { return fmt.Errorf(\"excluded URL must not contain wildcards: %s\", url) } }", "if c.RevocationURL != \"\" && !isValidSecureURL(c.RevocationURL) { return fmt.Errorf(\"revocationURL must be a valid HTTPS URL\") }", "if c.OIDCEndSessionURL != \"\" && !isValidSecureURL(c.OIDCEndSessionURL) { return fmt.Errorf(\"oidcEndSessionURL must be a valid HTTPS URL\") }", "if c.PostLogoutRedirectURI != \"\" && c.PostLogoutRedirectURI != \"/\" { if !isValidSecureURL(c.PostLogoutRedirectURI) && !strings.HasPrefix(c.PostLogoutRedirectURI, \"/\") { return fmt.Errorf(\"postLogoutRedirectURI must be either a valid HTTPS URL or start with /\") } }", "if c.RateLimit < MinRateLimit { return fmt.Errorf(\"rateLimit must be at least %d\", MinRateLimit) }", "if c.RefreshGracePeriodSeconds < 0 { return fmt.Errorf(\"refreshGracePeriodSeconds cannot be negative\") }", "for _, header := range c.Headers { if header.Name == \"\" { return fmt.Errorf(\"header name cannot be empty\") } if header.Value == \"\" { return fmt.Errorf(\"header value template cannot be empty\") } if !strings.Contains(header.Value, \"{{\") || !strings.Contains(header.Value, \"}}\") { return fmt.Errorf(\"header value '%s' does not appear to be a valid template (missing {{ }})\", header.Value) } if strings.Contains(header.Value, \"{{.claims\") { return fmt.Errorf(\"header template '%s' appears to use lowercase 'claims' - use '{{.Claims...' instead (case sensitive)\", header.Value) } if strings.Contains(header.Value, \"{{.accessToken\") { return fmt.Errorf(\"header template '%s' appears to use lowercase 'accessToken' - use '{{.AccessToken...' instead (case sensitive)\", header.Value) } if strings.Contains(header.Value, \"{{.idToken\") { return fmt.Errorf(\"header template '%s' appears to use lowercase 'idToken' - use '{{.IdToken...' instead (case sensitive)\", header.Value) } if strings.Contains(header.Value, \"{{.refreshToken\") { return fmt.Errorf(\"header template '%s' appears to use lowercase 'refreshToken' - use '{{.RefreshToken...' instead (case sensitive)\", header.Value) } }", "return nil"]
+def Text_Config_Validate : Prop := text_Config_Validate = expectedText_Config_Validate
+
+def expectedText_CreateConfig : List String := ["c := &Config{ Scopes: []string{\"openid\", \"profile\", \"email\"}, LogLevel: DefaultLogLevel, RateLimit: DefaultRateLimit, ForceHTTPS: true, EnablePKCE: false, RefreshGracePeriodSeconds: 60, }", "return c"]
+def Text_CreateConfig : Prop := text_CreateConfig = expectedText_CreateConfig
+
+def expectedText_isValidSecureURL : List String := ["u, err := url.Parse(s)", "return err == nil && u.Scheme == \"https\" && u.Host != \"\""]
+def Text_isValidSecureURL : Prop := text_isValidSecureURL = expectedText_isValidSecureURL
+
+def expectedText_isValidLogLevel : List String := ["return level == \"debug\" || level == \"info\" || level == \"error\""]
+def Text_isValidLogLevel : Prop := text_isValidLogLevel = expectedText_isValidLogLevel
+
+def expectedText_createStringMap : List String := ["result := make(map[string]struct{})", "for _, key := range keys { result[key] = struct{}{} }", "return result"]
+def Text_createStringMap : Prop := text_createStringMap = expectedText_createStringMap
+
+def expectedText_TraefikOidc_ExchangeCodeForToken : List String := ["return t.exchangeTokens(ctx, grantType, codeOrToken, redirectURL, codeVerifier)"]
+def Text_TraefikOidc_ExchangeCodeForToken : Prop := text_TraefikOidc_ExchangeCodeForToken = expectedText_TraefikOidc_ExchangeCodeForToken
+
+def expectedText_TraefikOidc_GetNewTokenWithRefreshToken : List String := ["return t.getNewTokenWithRefreshToken(refreshToken)"]
+def Text_TraefikOidc_GetNewTokenWithRefreshToken : Prop := text_TraefikOidc_GetNewTokenWithRefreshToken = expectedText_TraefikOidc_GetNewTokenWithRefreshToken
+
+def expectedText_TraefikOidc_RevokeTokenWithProvider : List String := ["if t.revocationURL == \"\" { return fmt.Errorf(\"token revocation endpoint is not configured or discovered\") }", "data := url.Values{ \"token\": {token}, \"token_type_hint\": {tokenType}, \"client_id\": {t.clientID}, \"client_secret\": {t.clientSecret}, }", "req, err := http.NewRequestWithContext(context.Background(), \"POST\", t.revocationURL, strings.NewReader(data.Encode()))", "if err != nil { return fmt.Errorf(\"failed to create token revocation request: %w\", err) }", "req.Header.Set(\"Content-Type\", \"application/x-www-form-urlencoded\")", "req.Header.Set(\"Accept\", \"application/json\")", "resp, err := t.httpClient.Do(req)", "if err != nil { return fmt.Errorf(\"failed to send token revocation request: %w\", err) }", "defer resp.Body.Close()", "if resp.StatusCode != http.StatusOK { body, _ := io.ReadAll(resp.Body) return fmt.Errorf(\"token revocation failed with status %d\", resp.StatusCode) }", "return nil"]
+def Text_TraefikOidc_RevokeTokenWithProvider : Prop := text_TraefikOidc_RevokeTokenWithProvider = expectedText_TraefikOidc_RevokeTokenWithProvider
+
+def expectedText_TraefikOidc_exchangeCodeForToken : List String := ["ctx := context.Background()", "effectiveCodeVerifier := \"\"", "if t.enablePKCE && codeVerifier != \"\" { effectiveCodeVerifier = codeVerifier }", "tokenResponse, err := t.exchangeTokens(ctx, \"authorization_code\", code, redirectURL, effectiveCodeVerifier)", "if err != nil { return nil, fmt.Errorf(\"failed to exchange code for token: %w\", err) }", "return tokenResponse, nil"]
+def Text_TraefikOidc_exchangeCodeForToken : Prop := text_TraefikOidc_exchangeCodeForToken = expectedText_TraefikOidc_exchangeCodeForToken
+
+def expectedText_TraefikOidc_exchangeTokens : List String := ["data := url.Values{ \"grant_type\": {grantType}, \"client_id\": {t.clientID}, \"client_secret\": {t.clientSecret}, }", "if grantType == \"authorization_code\" { data.Set(\"code\", codeOrToken) data.Set(\"redirect_uri\", redirectURL) if codeVerifier != \"\" { data.Set(\"code_verifier\", codeVerifier) } } else if grantType == \"refresh_token\" { data.Set(\"refresh_token\", codeOrToken) }", "jar, _ := cookiejar.New(nil)", "client := &http.Client{ Transport: t.httpClient.Transport, Timeout: t.httpClient.Timeout, CheckRedirect: func(req *http.Request, via []*http.Request) error { if len(via) >= 50 { return fmt.Errorf(\"stopped after 50 redirects\") } return nil }, Jar: jar, }", "req, err := http.NewRequestWithContext(ctx, \"POST\", t.tokenURL, strings.NewReader(data.Encode()))", "if err != nil { return nil, fmt.Errorf(\"failed to create token request: %w\", err) }", "req.Header.Set(\"Content-Type\", \"application/x-www-form-urlencoded\")", "resp, err := client.Do(req)", "if err != nil { return nil, fmt.Errorf(\"failed to exchange tokens: %w\", err) }", "defer resp.Body.Close()", "if resp.StatusCode != http.StatusOK { bodyBytes, _ := io.ReadAll(resp.Body) return nil, fmt.Errorf(\"token endpoint returned status %d: %s\", resp.StatusCode, string(bodyBytes)) }", "var tokenResponse TokenResponse", "if err := json.NewDecoder(resp.Body).Decode(&tokenResponse); err != nil { return nil, fmt.Errorf(\"failed to decode token response: %w\", err) }", "return &tokenResponse, nil"]
+def Text_TraefikOidc_exchangeTokens : Prop := text_TraefikOidc_exchangeTokens = expectedText_TraefikOidc_exchangeTokens
+
+def expectedText_TraefikOidc_getNewTokenWithRefreshToken : List String := ["ctx := context.Background()", "tokenResponse, err := t.exchangeTokens(ctx, \"refresh_token\", refreshToken, \"\", \"\")", "if err != nil { return nil, fmt.Errorf(\"failed to refresh token: %w\", err) }", "return tokenResponse, nil"]
+def Text_TraefikOidc_getNewTokenWithRefreshToken : Prop := text_TraefikOidc_getNewTokenWithRefreshToken = expectedText_TraefikOidc_getNewTokenWithRefreshToken
+
+def expectedText_TraefikOidc_verifyToken : List String := ["return t.tokenVerifier.VerifyToken(token)"]
+def Text_TraefikOidc_verifyToken : Prop := text_TraefikOidc_verifyToken = expectedText_TraefikOidc_verifyToken
+
+def expectedText_fetchJWKS : List String := ["req, err := http.NewRequestWithContext(ctx, \"GET\", jwksURL, nil)", "if err != nil { return nil, fmt.Errorf(\"failed to create JWKS request: %w\", err) }", "resp, err := httpClient.Do(req)", "if err != nil { return nil, fmt.Errorf(\"failed to fetch JWKS: %w\", err) }", "defer resp.Body.Close()", "if resp.StatusCode != http.StatusOK { return nil, fmt.Errorf(\"failed to fetch JWKS: unexpected status code %d\", resp.StatusCode) }", "var jwks JWKSet", "if err := json.NewDecoder(resp.Body).Decode(&jwks); err != nil { return nil, fmt.Errorf(\"failed to decode JWKS: %w\", err) }", "return &jwks, nil"]
+def Text_fetchJWKS : Prop := text_fetchJWKS = expectedText_fetchJWKS
+
+def expectedText_rsaJWKToPEM : List String := ["nBytes, err := base64.RawURLEncoding.DecodeString(jwk.N)", "if err != nil { return nil, fmt.Errorf(\"failed to decode JWK 'n' parameter: %w\", err) }", "eBytes, err := base64.RawURLEncoding.DecodeString(jwk.E)", "if err != nil { return nil, fmt.Errorf(\"failed to decode JWK 'e' parameter: %w\", err) }", "n := new(big.Int).SetBytes(nBytes)", "e := new(big.Int).SetBytes(eBytes)", "pubKey := &rsa.PublicKey{ N: n, E: int(e.Int64()), }", "pubKeyBytes, err := x509.MarshalPKIXPublicKey(pubKey)", "if err != nil { return nil, fmt.Errorf(\"failed to marshal RSA public key: %w\", err) }", "pubKeyPEM := pem.EncodeToMemory(&pem.Block{ Type: \"PUBLIC KEY\", Bytes: pubKeyBytes, })", "return pubKeyPEM, nil"]
+def Text_rsaJWKToPEM : Prop := text_rsaJWKToPEM = expectedText_rsaJWKToPEM
+
+def expectedText_ecJWKToPEM : List String := ["xBytes, err := base64.RawURLEncoding.DecodeString(jwk.X)", "if err != nil { return nil, fmt.Errorf(\"failed to decode JWK 'x' parameter: %w\", err) }", "yBytes, err := base64.RawURLEncoding.DecodeString(jwk.Y)", "if err != nil { return nil, fmt.Errorf(\"failed to decode JWK 'y' parameter: %w\", err) }", "var curve elliptic.Curve", "switch jwk.Crv { case \"P-256\": curve = elliptic.P256() case \"P-384\": curve = elliptic.P384() case \"P-521\": curve = elliptic.P521() default: return nil, fmt.Errorf(\"unsupported elliptic curve: %s\", jwk.Crv) }", "pubKey := &ecdsa.PublicKey{ Curve: curve, X: new(big.Int).SetBytes(xBytes), Y: new(big.Int).SetBytes(yBytes), }", "pubKeyBytes, err := x509.MarshalPKIXPublicKey(pubKey)", "if err != nil { return nil, fmt.Errorf(\"failed to marshal EC public key: %w\", err) }", "pubKeyPEM := pem.EncodeToMemory(&pem.Block{ Type: \"PUBLIC KEY\", Bytes: pubKeyBytes, })", "return pubKeyPEM, nil"]
+def Text_ecJWKToPEM : Prop := text_ecJWKToPEM = expectedText_ecJWKToPEM
+
+def expectedText_deriveCodeChallenge : List String := ["hasher := sha256.New()", "hasher.Write([]byte(codeVerifier))", "hash := hasher.Sum(nil)", "return base64.RawURLEncoding.EncodeToString(hash)"]
+def Text_deriveCodeChallenge : Prop := text_deriveCodeChallenge = expectedText_deriveCodeChallenge
+
+def expectedText_generateCodeVerifier : List String := ["verifierBytes := make([]byte, 32)", "_, err := rand.Read(verifierBytes)", "if err != nil { return \"\", fmt.Errorf(\"could not generate code verifier: %w\", err) }", "return base64.RawURLEncoding.EncodeToString(verifierBytes), nil"]
+def Text_generateCodeVerifier : Prop := text_generateCodeVerifier = expectedText_generateCodeVerifier
+
+def expectedText_generateNonce : List String := ["nonceBytes := make([]byte, 32)", "_, err := rand.Read(nonceBytes)", "if err != nil { return \"\", fmt.Errorf(\"could not generate nonce: %w\", err) }", "return base64.URLEncoding.EncodeToString(nonceBytes), nil"]
+def Text_generateNonce : Prop := text_generateNonce = expectedText_generateNonce
+
+def expectedText_handleError : List String := ["http.Error(w, message, code)"]
+def Text_handleError : Prop := text_handleError = expectedText_handleError
+
 end Oidc.Shapes
